@@ -493,3 +493,62 @@ pub fn run_c11(out: &mut Out, rng: &mut Rng, thorough: bool, only: Option<&str>)
         }
     }
 }
+
+// ---- bucket aggregation back ends (C01 e, C07) ---------------------------------
+
+pub const AGG_BACKENDS: [(u8, &str); 4] = [(0, "naive"), (2, "sse2"), (3, "ssse3"), (4, "avx2")];
+
+#[repr(align(16))]
+struct AlB<const N: usize>([u32; N]);
+
+fn agg_call(backend: u8, nb: usize, bk: &[u32], q: [u32; 3]) -> Option<Obs<Vec<u8>>> {
+    use tlsh::verif::bucket_aggregation as hook;
+    macro_rules! go {
+        ($f:ident, $small:literal, $large:literal) => {{
+            let b = AlB::<$large>(bk[..$large].try_into().unwrap());
+            let mut probe = [0u8; $small];
+            if !hook::$f(backend, &mut probe, &b.0, q[0], q[1], q[2]) {
+                return None;
+            }
+            Some(obs(|| {
+                let mut out = [0u8; $small];
+                hook::$f(backend, &mut out, &b.0, q[0], q[1], q[2]);
+                out.to_vec()
+            }))
+        }};
+    }
+    match nb {
+        48 => go!(aggregate_48, 12, 48),
+        128 => go!(aggregate_128, 32, 128),
+        _ => go!(aggregate_256, 64, 256),
+    }
+}
+
+pub fn run_agg(out: &mut Out, rng: &mut Rng, thorough: bool, only: Option<&str>) {
+    for v in [variant("Short"), variant("Normal"), variant("Long")] {
+        if only.map_or(false, |o| o != v.name()) {
+            continue;
+        }
+        let nb = v.nb();
+        for j in 0..(if thorough { 120 } else { 24 }) {
+            let st = craft_state(v, rng, j);
+            let bk = &st.buckets[..nb];
+            // quartiles: the exact ones, and arbitrary q1 <= q2 <= q3 (the back ends must not depend on exactness)
+            let mut sorted = bk.to_vec();
+            sorted.sort();
+            let exact = [sorted[nb / 4 - 1], sorted[nb / 2 - 1], sorted[3 * nb / 4 - 1]];
+            let mut arb = [bk[rng.below(nb as u64) as usize], rng.next() as u32, bk[rng.below(nb as u64) as usize].wrapping_add(1)];
+            arb.sort();
+            for q in [exact, arb] {
+                for (id, name) in AGG_BACKENDS {
+                    if let Some(o) = agg_call(id, nb, bk, q) {
+                        out.emit(
+                            Ev::new("agg").str("backend", name).num("nb", nb as i64).raw("bk", &wides_json(bk))
+                                .raw("q", &wides_json(&q)).bytes("out", &o.v.clone().unwrap_or_default()).meas(o.a, &o.p),
+                        );
+                    }
+                }
+            }
+        }
+    }
+}
